@@ -203,19 +203,21 @@ type retInfo struct {
 }
 
 type GuardResult struct {
-	Returns []retInfo
-	Sites   map[string][]string // assume name -> positions of matched, executable sites
-	Visited int                 // function contexts analysed
-	Panics  int
-	Unknown []string // reasons precision was lost (informational)
+	RootExec map[[2]int]bool // executable CFG edges of the root function
+	Returns  []retInfo
+	Sites    map[string][]string // assume name -> positions of matched, executable sites
+	Visited  int                 // function contexts analysed
+	Panics   int
+	Unknown  []string // reasons precision was lost (informational)
 }
 
 type gEngine struct {
-	q      *GuardQuery
-	memo   map[string][]lat
-	active map[string]bool
-	sites  map[string]map[string]bool
-	nctx   int
+	rootExec map[[2]int]bool
+	q        *GuardQuery
+	memo     map[string][]lat
+	active   map[string]bool
+	sites    map[string]map[string]bool
+	nctx     int
 }
 
 func runGuard(q *GuardQuery) *GuardResult {
@@ -231,7 +233,7 @@ func runGuard(q *GuardQuery) *GuardResult {
 		}
 	}
 	fa := e.analyse(q.Root, args, 0)
-	res := &GuardResult{Sites: map[string][]string{}, Visited: e.nctx}
+	res := &GuardResult{Sites: map[string][]string{}, Visited: e.nctx, RootExec: e.rootExec}
 	if fa != nil {
 		res.Returns = fa.returns
 	}
@@ -827,6 +829,14 @@ func (e *gEngine) analyse(f *ssa.Function, args []lat, depth int) *fnAnalysis {
 				if st, ok := in.(*ssa.Store); ok && e.q.ObserveStore != nil {
 					e.q.ObserveStore(f, st, get)
 				}
+			}
+		}
+	}
+	if f == e.q.Root && depth == 0 {
+		e.rootExec = map[[2]int]bool{}
+		for ed, ok := range execEdge {
+			if ok {
+				e.rootExec[[2]int{ed.from, ed.to}] = true
 			}
 		}
 	}
